@@ -1,3 +1,5 @@
+import F3.Proofs.SkelTieSim
+import F3.Proofs.SkelTieInputs
 import F3.Gen.Inputs
 import F3.Model.SimOracle
 import F3.Spec.SimOracle
@@ -218,4 +220,21 @@ example :
 example : certchainSource 50 10 63 = .certHead 53 ∧ certchainSource 50 10 59 = .bootstrap ∧
     nodeSourceGen 50 10 63 = .certHead 53 ∧ nodeSourceGen 50 10 59 = .bootstrap ∧ nodeSourceGen 50 10 60 = .certHead 50 := by decide
 
+end F3.Props.C19
+
+namespace F3.Props.C19
+section Skeletons
+
+/-- **The Go functions this property's models mirror still have the statement structure the models were written
+against**: each regenerated skeleton (pre-order list of statement kinds, `tools/go2lean/skel.go`) equals the pinned
+expectation of `F3/Proofs/SkelTie*.lean`. An added early return, cap, loop or dropped branch in one of these functions
+breaks this obligation even when no regenerated *expression* changes. -/
+theorem code_structure_as_modelled :
+    F3.Gen.SkelSim.skelSimValidateDecision = F3.SkelTie.SkelSim.skelSimValidateDecisionExpected ∧
+    F3.Gen.SkelSim.skelSimHasReachedConsensus = F3.SkelTie.SkelSim.skelSimHasReachedConsensusExpected ∧
+    F3.Gen.SkelInputs.skelGetProposal = F3.SkelTie.SkelInputs.skelGetProposalExpected ∧
+    F3.Gen.SkelInputs.skelPtCidForTipset = F3.SkelTie.SkelInputs.skelPtCidForTipsetExpected :=
+  ⟨F3.SkelTie.SkelSim.skelSimValidateDecision_expected, F3.SkelTie.SkelSim.skelSimHasReachedConsensus_expected, F3.SkelTie.SkelInputs.skelGetProposal_expected, F3.SkelTie.SkelInputs.skelPtCidForTipset_expected⟩
+
+end Skeletons
 end F3.Props.C19
